@@ -628,11 +628,14 @@ def run_cli(argv, pre):
     os.chdir(d)
     DeferredFileWriter.open, DeferredFileWriter.write = open_rec, write_rec
     AUDIT['events'], AUDIT['finalising'], AUDIT['on'] = [], False, True
-    code = 0
+    code, exited, raw_code = 0, False, None
     try:
         runpy.run_path(M2PATH, run_name='__main__')
     except SystemExit as e:
-        code = e.code if isinstance(e.code, int) else (0 if e.code is None else 1)
+        # the exit status as the operating system sees it (POSIX): an int is truncated to its low byte,
+        # None is 0, any other object is printed and gives 1
+        exited, raw_code = True, e.code
+        code = (e.code & 0xFF) if isinstance(e.code, int) else (0 if e.code is None else 1)
     except BaseException as e:  # noqa
         code = 'exception:%s' % type(e).__name__
     finally:
@@ -656,7 +659,7 @@ def run_cli(argv, pre):
     inside = [(os.path.relpath(p, os.path.realpath(d)), m, fin) for p, m, fin in events
               if p.startswith(os.path.realpath(d) + os.sep)]
     shutil.rmtree(d, ignore_errors=True)
-    return {'code': code, 'after': after, 'entries': entries, 'opens': rec['opens'], 'gate': rec['gate'],
+    return {'code': code, 'exited': exited, 'raw_code': raw_code, 'after': after, 'entries': entries, 'opens': rec['opens'], 'gate': rec['gate'],
             'finalised': finalised, 'inside': inside, 'counter': counters[0] if counters else None, 'log': log_err}
 
 
@@ -683,23 +686,36 @@ def leftover_oracle(entries, specs, level=logging.WARNING):
     return total + max(0, rest - blanket)
 
 
-def altloc_input(prot):
-    """copy of the test structure with one alternate-location record: a 'pdb-alternate' warning that is
-    logged before every other warning of the run"""
-    out, done = [], False
-    for l in open(os.path.join(T0, prot, 'aa.pdb')):
-        out.append(l)
-        if not done and l.startswith('ATOM') and l[12:16].strip() == 'CA':
-            out.append(l[:16] + 'B' + l[17:])
-            done = True
-    path = os.path.join(SCRATCH, 'altloc_%s.pdb' % prot)
+def altloc_input(prot, n=1):
+    """copy of the test structure with `n` alternate-location-B records, each of which gives one
+    'pdb-alternate' warning, logged before every other warning of the run (n = 1: after the first CA;
+    otherwise spread evenly over all ATOM records)"""
+    lines = open(os.path.join(T0, prot, 'aa.pdb')).readlines()
+    out = []
+    if n == 1:
+        done = False
+        for l in lines:
+            out.append(l)
+            if not done and l.startswith('ATOM') and l[12:16].strip() == 'CA':
+                out.append(l[:16] + 'B' + l[17:])
+                done = True
+    else:
+        natoms = sum(1 for l in lines if l.startswith('ATOM'))
+        k = 0
+        for l in lines:
+            out.append(l)
+            if l.startswith('ATOM'):
+                copies = n // natoms + (1 if k < n % natoms else 0)
+                out.extend([l[:16] + 'B' + l[17:]] * copies)
+                k += 1
+    path = os.path.join(SCRATCH, 'altloc%d_%s.pdb' % (n, prot))
     with open(path, 'w') as f:
         f.writelines(out)
     return path
 
 
 def cli_case(cid, prot, opts, maxwarn_groups, pre_names, verbose=False, write_dump=None, altloc=False):
-    aa = altloc_input(prot) if altloc else os.path.join(T0, prot, 'aa.pdb')
+    aa = altloc_input(prot, int(altloc)) if altloc else os.path.join(T0, prot, 'aa.pdb')
     argv = ['-f', aa, '-x', 'cg.pdb', '-o', 'topol.top'] + opts
     for g in maxwarn_groups:
         argv += ['-maxwarn'] + g
@@ -713,7 +729,7 @@ def cli_case(cid, prot, opts, maxwarn_groups, pre_names, verbose=False, write_du
     impl_left = ignore_warnings_and_count(r['counter'], specs) if r['counter'] is not None else None
     # the error record logged by the gate itself is counted after the decision; remove it for the model input
     entries = r['entries']
-    gate_err = 1 if (r['code'] == 2 and not r['finalised']) else 0
+    gate_err = 1 if (r['exited'] and not r['finalised']) else 0
     ent_gate = []
     for l, t, c in entries:
         if l == logging.ERROR and t == 'general' and gate_err:
@@ -742,7 +758,7 @@ def cli_case(cid, prot, opts, maxwarn_groups, pre_names, verbose=False, write_du
         errs.append('martinize2 raised %s' % r['code'])
     if impl_left_gate:
         if r['code'] == 0:
-            errs.append('%d warnings left after -maxwarn but exit code 0' % impl_left_gate)
+            errs.append('%d warnings left after -maxwarn but exit status 0 (sys.exit(%r))' % (impl_left_gate, r['raw_code']))
         if r['finalised']:
             errs.append('%d warnings left after -maxwarn but DeferredFileWriter.write() was called' % impl_left_gate)
         unexpected = [n for n in new if n not in allowed_extra]
@@ -778,7 +794,7 @@ def cli_case(cid, prot, opts, maxwarn_groups, pre_names, verbose=False, write_du
     nwarn = sum(c for l, t, c in ent_gate if l >= logging.WARNING)
     chk.count('cli_exit=%s' % (r['code'],))
     chk.count('cli_warnings=%d' % min(nwarn, 3))
-    chk.count('cli_leftover=%d' % min(impl_left_gate, 3))
+    chk.count('cli_leftover=%d' % (impl_left_gate if impl_left_gate % 256 == 0 else min(impl_left_gate, 3)))
     chk.count('cli_deferred_outputs=%d' % len(r['gate']))
     if pre:
         chk.count('cli_preexisting_outputs')
@@ -822,6 +838,8 @@ cli_plan = [
     ('mutate2', [['2']], [], {'altloc': True}),
     # a warning declared in a force-field `[ warning ]` section (type 'model'): counted only after the replay of
     # molecule.log_entries, i.e. the gate must be evaluated after that loop
+    # exactly 256 warnings left (300 pdb-alternate, -maxwarn 44): an exit status derived from the count wraps to 0
+    ('altloc256', [['44']], ['cg.pdb'], {'prot': 'dipro-termini', 'altloc': 300}),
     ('ffwarn', [], ['cg.pdb'], {'prot': 'dipro-termini'}),
     ('ffwarn', [['1']], ['cg.pdb'], {'prot': 'dipro-termini'}),
 ]
@@ -851,6 +869,12 @@ for i, (kind, mw, pre, kw) in enumerate(cli_plan):
     prot = kw.pop('prot', PROTS[0])
     if kind == 'dssp-v':
         row = cli_case('cli-%d-dssp-v' % i, prot, ['-ff', 'martini22', '-dssp', '-scfix'], mw, pre, verbose=True)
+    elif kind == 'altloc256':
+        row = cli_case('cli-%d-altloc256' % i, prot, ['-ff', 'martini3001', '-nt', '-noscfix', '-ss', 'C'], mw, pre, **kw)
+        left = re.match(r'\[ \S+ (\S+) ', row[2])
+        if not left or left.group(1) != '256':
+            row = row[:3] + (row[3] + ['the altloc256 CLI case does not leave exactly 256 warnings any more (got %s)'
+                                       % (left.group(1) if left else '?')],) + row[4:]
     elif kind == 'ffwarn':
         row = cli_case('cli-%d-ffwarn' % i, prot, ['-ff', 'martini3001', '-nt', '-noscfix', '-ss', 'C',
                                                   '-ff-dir', ffwarn_dir()], mw, pre, **kw)
